@@ -223,19 +223,25 @@ def wrap_guess(real_guess):
         return True
     post = _ensure(c14_post, real_guess)
 
+    import inspect
+    guess_sig = inspect.signature(real_guess)
+
     @functools.wraps(real_guess)
-    def checked(masses, max_delta=None, **kw):
+    def checked(*args, **kw):
+        # arguments reach the real function as given; they are bound to its own signature only to know the tolerance in force
         from mofun.atomic_masses import ATOMIC_MASSES
-        masses = list(masses) if not isinstance(masses, np.ndarray) else masses
-        args = (masses,) if max_delta is None else (masses, max_delta)
         try:
             return post(*args, **kw)
         except Exception as e:
             if type(e).__name__ == "PostBroken":
                 raise
             _ev("C14.guess_raise")
-            import inspect
-            tol = max_delta if max_delta is not None else inspect.signature(real_guess).parameters["max_delta"].default
+            try:
+                ba = guess_sig.bind(*args, **kw)
+                ba.apply_defaults()
+                masses, tol = ba.arguments["masses"], ba.arguments["max_delta"]
+            except Exception:
+                raise e
             try:
                 allin = all(min(abs(float(m) - mm) for mm in ATOMIC_MASSES.values()) < tol for m in masses)
             except Exception:
